@@ -16,11 +16,11 @@ PLANS = {
     "C17": [("A", "rsa", 90, 1800), ("A", "ec", 40, 600),
             ("A", "ecdsa", 32, 500), ("A", "ec_big", 3, 40),
             ("A", "ec_default", 0, 2), ("A", "rsa_lhw", 2, 24),
-            ("A", "rsa_huge", 1, 8)],
+            ("A", "rsa_huge", 1, 8), ("A", "ecdsa_huge", 1, 8)],
     "C07": [("A", "rsa", 90, 1800), ("A", "ec", 40, 600),
             ("A", "ecdsa", 32, 500), ("A", "rsa_large", 2, 24),
             ("A", "ecdsa_large", 2, 24), ("A", "ec_allcurves", 2, 24),
-            ("A", "ecdsa_allcurves", 2, 24)],
+            ("A", "ecdsa_allcurves", 2, 24), ("A", "rsa_lhw", 2, 24)],
     "C18": [("A", "rsa", 110, 2200), ("A", "ec", 48, 700),
             ("A", "ecdsa", 40, 600), ("A", "ec_big", 3, 40),
             ("A", "ec_default", 0, 2), ("A", "rsa_large", 1, 8),
